@@ -103,6 +103,10 @@ def configs(tier):
                   "mode": "noise", "phase": None, "added": True})
         c.append({"gene": "GA", "genome": genome, "cn": ["1", "1"],
                   "major": {"1": 1, "4": 1}, "mode": "noise", "phase": None, "added": True})
+        # ... refined together with another candidate (before / after it)
+        for comp in ("first", "last"):
+            c.append({"gene": "toy", "genome": genome, "cn": ["1", "1"], "major": {"1": 2},
+                      "mode": "noise", "phase": None, "added": True, "company": comp})
         if tier == "thorough":
             c.append({"gene": "GB", "genome": genome, "cn": ["1", "1"],
                       "major": {"2": 1, "5": 1}, "mode": "noise", "phase": None,
@@ -380,11 +384,37 @@ def run_config(cfg):
     saved_max = minor.__dict__.get("max")
     minor.max = symx.smax
 
+    # company: a second major solution with the same alleles but without the novel variant
+    # is refined in the same call (before / after); the model built for `msol` must still
+    # be the specified one (considered variants are pooled over all candidates)
+    lst = [msol]
+    if cfg.get("company"):
+        other = MajorSolution(0, {SolvedAllele(gene, a): c for a, c in major.items()},
+                              cn_sol, [])
+        lst = [msol, other] if cfg["company"] == "first" else [other, msol]
+    real_solve = minor.solve_minor_model
+    built = {}
+
+    def spy(gene_, cov_, major_sol, *a, **k):
+        inst = built["inst"]
+        n0 = len(inst.models)
+        try:
+            return real_solve(gene_, cov_, major_sol, *a, **k)
+        finally:
+            if major_sol is msol and len(inst.models) > n0:
+                built["model"] = inst.models[n0]
+
     def run():
         aldy.common.json.clear()
+        built.pop("model", None)
         with symx.install() as inst:
-            r = minor.estimate_minor(gene, cov, [msol], "z3")
-            return inst.models[-1] if inst.models else None, r
+            built["inst"] = inst
+            minor.solve_minor_model = spy
+            try:
+                r = minor.estimate_minor(gene, cov, lst, "z3")
+            finally:
+                minor.solve_minor_model = real_solve
+            return built.get("model"), r
 
     try:
         npaths = 0
@@ -432,11 +462,20 @@ class Names:
         return f"N_{m.pos}_{m.op}_{a}_{mi}_{i}"
 
 
-def check_path(eng, res, cfg, gene, cn_list, major, profile, muts, cands, counts, totals,
-               xs, planted, phases, m, pidx):
+def check_path(eng, res, *a):
+    n0 = len(eng.pc)
+    try:
+        return _check_path(eng, res, *a)
+    finally:
+        del eng.pc[n0:]
+
+
+def _check_path(eng, res, cfg, gene, cn_list, major, profile, muts, cands, counts, totals,
+                xs, planted, phases, m, pidx):
     tag = (f"{cfg['gene']}/{cfg['genome']}/{','.join(cn_list)}/"
            f"{'+'.join(f'{k}x{v}' for k, v in major.items())}/{cfg['mode']}"
            + ("/novel" if cfg.get("added") else "")
+           + (f"/company-{cfg['company']}" if cfg.get("company") else "")
            + (f"/phase{cfg['phase']}" if cfg.get("phase") else ""))
     if m is None:
         ob(res, f"{tag}: a model is built", "sat")
@@ -448,8 +487,10 @@ def check_path(eng, res, cfg, gene, cn_list, major, profile, muts, cands, counts
         elif entails(eng, xs[v] <= 0):
             sup[v] = False
         else:
-            ob(res, f"{tag}: support pattern decided on every path", "unknown")
-            return
+            # the code never looked at this variant's reads: decide the case "it has
+            # reads" (where the specification wants it in the model)
+            eng.pc.append(xs[v] > 0)
+            sup[v] = True
     cons = m.z3_constraints()
     copies = [(a, mi, i) for (a, mi) in cands for i in range(major[a])]
     has_reg = lambda a, pos: stagelib.allele_has_region(gene, a, pos)  # noqa
@@ -956,7 +997,7 @@ def violation(eng, res, cfg, xs, totals, hyps, obj, label, key):
         tried += 1
         rp = c02.make_replay(cfg, xs, totals, mm)
         rp.update({"kind": "minor", "major": cfg["major"], "phase": cfg.get("phase"),
-                   "added": cfg.get("added")})
+                   "added": cfg.get("added"), "company": cfg.get("company")})
         okk, msg = replay(rp)
         res["stats"]["replays"] = res["stats"].get("replays", 0) + 1
         if okk:
@@ -993,13 +1034,24 @@ def replay(o):
     seen = {}
     real = minor.solve_minor_model
 
-    def spy(gene_, coverage, *a, **kw):
+    lst = [msol]
+    if o.get("company"):
+        other = MajorSolution(0, {SolvedAllele(gene, a): c for a, c in major.items()},
+                              cn_sol, [])
+        lst = [msol, other] if o["company"] == "first" else [other, msol]
+
+    def spy(gene_, coverage, major_sol, *a, **kw):
         seen["cov"] = coverage
-        return real(gene_, coverage, *a, **kw)
+        r = real(gene_, coverage, major_sol, *a, **kw)
+        if major_sol is msol:
+            seen["sols"] = r
+        return r
 
     minor.solve_minor_model = spy
     try:
-        sols = minor.estimate_minor(gene, cov, [msol], "any")
+        sols = minor.estimate_minor(gene, cov, lst, "any")
+        if o.get("company"):
+            sols = seen.get("sols", [])
     except Exception as e:  # noqa
         return True, f"estimate_minor raised {type(e).__name__}: {e} on {o['alt_counts']}"
     finally:
@@ -1018,7 +1070,7 @@ def judge(gene, profile, cn_list, major, muts, covf, sols, phases, tol=1e-3):
     for v in muts:
         counts[v] = covf.coverage(v)
         counts[Mutation(v.pos, "_")] = covf.coverage(Mutation(v.pos, "_"))
-    totals = {v.pos: covf.total(v.pos) for v in muts}
+    totals = {v.pos: stagelib.table_depth(covf, v.pos) for v in muts}
     sup = {v: counts[v] > 0 for v in muts}
     sp = spec_formula(gene, cn_list, major, profile, muts, cands, copies, counts, totals,
                       counts, sup, phases)
